@@ -174,7 +174,12 @@ int main(int argc, char** argv)
         o.max_idx = 1;
         o.prio_minus = false; o.prio_next = false;
         o.depth_quick = 3; o.depth_thorough = 4;
-        if (vx::thorough()) { for (const char* c : {"NL", "NQ", "J", "I", "N3"}) o.classes.insert(c); o.fees3 = "h"; o.prio_minus = true; o.max_idx = 2; o.depth_thorough = 4; }
-        return ps::Configs{{"", o}};
+        if (!vx::thorough()) return ps::Configs{{"", o}};
+        ps::Opts deep = o; // the quick menu one level deeper
+        deep.depth_thorough = 4;
+        ps::Opts rich = o; // time-locked txs, TRUC, cluster joins, -delta, reorgs at depth 3
+        for (const char* c : {"NL", "NQ", "J", "I", "N3"}) rich.classes.insert(c);
+        rich.fees3 = "h"; rich.prio_minus = true; rich.max_idx = 2; rich.child_outs = 2; rich.depth_thorough = 3;
+        return ps::Configs{{"_deep", deep}, {"_rich", rich}};
     }, mon);
 }
